@@ -134,6 +134,12 @@ func Model(r *rand.Rand, opt ModelOpt) *openfgav1.AuthorizationModel {
 	if collide && nRel >= 2 {
 		relNames[nRel-1] = relNames[0] + "c2" // likewise for `o0#r0 with c2` and `o0#r0c2`
 	}
+	if !collide && nRel >= 2 && r.Intn(12) == 0 {
+		relNames[nRel-1] = strings.ToUpper(relNames[0]) // names differing only in case: comparisons that fold case see a tie
+		if nObj >= 2 && r.Intn(2) == 0 {
+			objs[nObj-1] = strings.ToUpper(objs[0])
+		}
+	}
 	if r.Intn(3) == 0 {
 		g.tuplesets = []string{"p", "q"} // a second tupleset with its own parent types
 	}
